@@ -62,6 +62,21 @@ Robustness round 4 (same obligations; one new: R4 writer/env-forwarded — the e
     loop over it; calling a local closure is calling its body; H.entries_scope: a delta's entries reached through a private
     planning method of the delta; H.sbom_name_table: to_path_buf + push is join; H.delete_role: the delete routine is
     validated on its effects (layer_roles finds it by a literal remove_file(<name>.toml) in its body)
+Robustness round 5 (same obligations):
+  - rows: a success site that several dispatch arms reach (the re-read sunk below the `match`, the create / update
+    routines returning `()`) is read once per arm — H.split_ways on the decisions that *define* the rows (reader result
+    present?, strategy), each way on the control flow without the other arms (H.SpecOutcome: "after the decision" is
+    dominance on that graph, so a tail shared by all arms counts for every row); a second look at an already decided value
+    (drop elaboration) follows the decision.  An "absent" row found only by elimination while strategy rows are missing is
+    reported UNPROVEN, not VIOLATED (Doubtful)
+  - R4 writer/*: the switch is the writer's *parameter* whatever its type is called (one generic `Replacement<T>` with
+    aliases); a closure handed to a private `apply(self, f)` that only ever calls it is read once, under apply's guards
+    (H.VecEffects._drop_handed_twice); the switch seen through a private Option view (`replacement() -> Option<T>` +
+    map_or / map / and_then) is a `select` over the switch on the inline_deep normal form (H.switch_view): the routine runs
+    exactly when the view has a payload = on Replace, with Replace's payload; under a literal `Keep` the closure is pruned
+  - R5 reader/content_metadata: only the file access in a private helper (returning a tuple / struct of path and text),
+    the parse in the reader: projections of the helper's success payload are resolved (H.deep_fields on tuples)
+  - R6: a scope for which one side has no location is UNPROVEN (table extraction did not follow it, or really missing)
 """
 from . import layer_env_common as L
 from . import C02_helpers as H
@@ -381,7 +396,12 @@ def run(ctx, rep):
     is_layer_path = lambda v: v[0] == 'field' and v[2] == 'path' and strip(v[1])[0] == 'call' and strip(v[1])[1] == RL
     LP = RowPaths(is_ld, is_ln, dir_values=(is_layer_path,))
     kl = lambda e: LP.classify(e.path) if e.path is not None else None
-    outs = H.outcomes_ctx(E, hl)     # lib.effects.outcomes, each callee read under its call site's literal switches
+    # lib.effects.outcomes, each callee read under its call site's literal switches; a success site shared by several
+    # dispatch arms (the re-read sunk below the `match`) is read once per arm: the rows are defined by the decisions on
+    # "is the layer there" (the reader's result), the strategy and the migration, not by where the arms end
+    # (the migration row is defined by ending in the recursion: both of its arms meet there by design)
+    row_decision = lambda enum, subj: enum == STRAT or (enum != MIGR and bool(H.top_calls(subj, RL, OPAQUE())))
+    outs = H.outcomes_ctx(E, hl, split_on=row_decision)
     rows = {}
     for o in outs:
         decs = [(c, s, lv) for c, s, lv in o.decisions() if c.enum in (STRAT, MIGR)]
@@ -402,12 +422,41 @@ def run(ctx, rep):
     for r in rows:
         if r not in want_rows:
             rep.unproven('R1', 'row:' + r, hl.file, 'unrecognised decision row %s' % r)
+    # An outcome without any strategy decision is the "layer absent" row *by elimination*. When strategy rows are missing
+    # at the same time and nothing on the way says the reader found no layer, that outcome may just as well be all rows
+    # merged in a shape the row extraction does not separate (the dispatch inside a routine that is not in tail position,
+    # a loop instead of the recursion): what fails on it is then "not understood", not a breach.
+    rows_missing = [r for r in ('Recreate', 'Update', 'Keep') if r not in rows]
+
+    class Doubtful:
+        def __init__(self, rep, why):
+            self._rep, self._why = rep, why
+
+        def __getattr__(self, n):
+            return getattr(self._rep, n)
+
+        def violated(self, rule, subject, where, msg, detail=None):
+            return self._rep.unproven(rule, subject, where, '%s (%s)' % (msg, self._why), detail)
+
+        def check(self, cond, rule, subject, where, ok_msg, bad_msg, detail=None):
+            if cond:
+                self._rep.holds(rule, subject, where, ok_msg, detail)
+            else:
+                self.violated(rule, subject, where, bad_msg, detail)
+            return cond
+    rep0 = rep
     rep.extra['dispatch_table'] = {}
     cb_occ = {}      # callback -> {row tag: (possible occurrences, certain occurrences, one of them can repeat?, call sites)}
     for r in want_rows:
         for idx, (o, dec) in enumerate(rows.get(r, [])):
             tag = '%s#%d' % (r, idx)
             where = '%s:%d' % (o.sites[-1].fn.file, o.sites[-1].fn.line)
+            rep = rep0
+            if r == 'absent' and rows_missing and not any(
+                    c.kind == 'variant' and c.outcome == frozenset({'None'}) and sj is not None and H.top_calls(sj, RL, OPAQUE())
+                    for c, sj, lv in o.decisions()):
+                rep = Doubtful(rep0, 'row(s) %s were not found and nothing on this way says the reader found no layer: this outcome may be '
+                                     'several dispatch rows that the extraction could not separate' % rows_missing)
             must = o.must if dec is None else o.region(dec[0], dec[2], o.must)
             may = o.may if dec is None else o.region(dec[0], dec[2], o.may)
             seq = []
@@ -495,6 +544,7 @@ def run(ctx, rep):
                                         late.append('%s in %s' % ((c.name or '?').split('::')[-1], sf.path.split('::')[-1]))
                 rep.check(ok and after_ok, 'R5', tag + '/reread', where, 'returns read_layer(LD, LN) performed after the last mutation',
                           'returned layer data is not a re-read of this layer after the last write%s: %s' % (' (%s)' % ', '.join(late[:2]) if late else '', vstr(payload)[:160]))
+    rep = rep0
     # ---- R2 call-site counts ---------------------------------------------------------------------------
     # "exactly once when due": one call site outside any loop is the simple case; with several call sites (the routine
     # around the callback inlined into each arm, ...) the same follows when, on every dispatch row, at most one of them
@@ -644,15 +694,31 @@ def run(ctx, rep):
             continue
         e = next(iter(chains.values()))
         gs = guards_of(EW, e)
-        sw = [(cd, subj) for cd, views, subj in gs if cd.kind == 'variant' and cd.enum == enum]
         is_switch = lambda v: v is not None and strip(v)[0] == 'param' and strip(v)[1] == wl.path and strip(v)[2] == pidx
+        # the switch is the writer's parameter, whatever its type is called (two enums, one generic `Replacement<T>` with
+        # type aliases ...): a decision on the variant of that parameter is a decision on the switch
+        sw = [(cd, subj) for cd, views, subj in gs if cd.kind == 'variant' and (cd.enum == enum or is_switch(subj))]
         g_ok = bool(sw) and sw[-1][0].outcome == frozenset({'Replace'}) and is_switch(sw[-1][1])
+        # the switch looked at through a private Option view (`fn replacement(self) -> Option<T>` + map / map_or / and_then
+        # / if-let on it): the routine runs in a closure that exists exactly when that view has a payload, and on the
+        # normal form with private helpers transparent the view is a `select` over the switch — Some exactly on Replace
+        views = [H.switch_view(sl, imp[1]) for imp in (e.implied or ()) if imp[0] == 'unwrap']
+        views = [vw for vw in views if vw is not None and is_switch(vw[0])]
+        if not sw and views:
+            g_ok = all(set(vw[2]) == {'Replace'} for vw in views)
         rep.check(g_ok, 'R4', 'writer/%s/guard' % short, e.where(), 'runs exactly on Replace', '%s is not guarded by the Replace variant of its switch' % short)
         pv = strip(e.args[2]) if e.args and len(e.args) > 2 else ('unknown',)
+        raw = e.args[2] if e.args and len(e.args) > 2 else ('unknown',)
+        while raw[0] in ('ref', 'deref') and len(raw) > 1:
+            raw = raw[1]
+        if raw[0] == 'unwrap':
+            vw = H.switch_view(sl, raw[1])
+            if vw is not None and is_switch(vw[0]) and set(vw[2]) == {'Replace'}:
+                pv = strip(vw[2]['Replace'])      # the payload of the view is the payload of Replace
         p_ok = pv[0] == 'field' and pv[2] == '0' and pv[1][0] == 'variant' and pv[1][2] == 'Replace' and is_switch(pv[1][1])
         rep.check(p_ok, 'R4', 'writer/%s/payload' % short, e.where(), 'replaces with the Replace payload', 'replacement data is %s' % vstr(pv)[:80])
         # nothing but the switch decides whether the replace routine runs (`Replace(vec![])` must still wipe the old set)
-        extra = [cd for cd, views, subj in H.optional_guards(EW, e) if not (cd.kind == 'variant' and cd.enum == enum and is_switch(subj))]
+        extra = [cd for cd, views, subj in H.optional_guards(EW, e) if not (cd.kind == 'variant' and is_switch(subj))]
         rep.check(not extra, 'R4', 'writer/%s/only-switch' % short, e.where(), 'Replace(x) always runs the replace routine, whatever x is',
                   '%s is skipped under a further condition: %s' % (short, [repr(cd) for cd in extra][:2]))
     # replace really replaces
@@ -749,6 +815,9 @@ def run(ctx, rep):
                   'returned env is %s: not (only) what read_from_layer_dir finds in the layer directory' % vstr(ev)[:120])
         # a private helper that reads + parses the file it is given is transparent (success-payload normal form)
         cv = H.open_payload(sl, fd.get('content_metadata', ('unknown',)), keep=(L.R_LAYER,))
+        # ... also when only the file access (locate + normalise + read) lives in the helper and the parse stays here:
+        # projections of the helper's success payload (`helper(..)?.1`) are resolved (H.deep_fields)
+        cv = H.deep_fields(sl, cv, keep=(L.R_LAYER,))
         c_ok = False
         if cv[0] == 'unwrap' and cv[1][0] == 'call' and re.match(r'^toml::(de::)?from_(str|slice)$', cv[1][1]) and len(cv[1][2]) == 1:
             src = cv[1][2][0]
@@ -773,6 +842,14 @@ def run(ctx, rep):
     from . import C03_helpers as H3   # the generalised reader table (helpers, collected pipelines)
     rf, rt, rdetail = H3.reader_scope_table(prog, sl)
     for scope in sorted(set(wt) | set(rt)):
+        if wt.get(scope) is None or rt.get(scope) is None:
+            # one side has no location for the scope: either it really is not persisted / not read back (a breach), or the
+            # store / read of that scope is spelled in a way the table extraction does not follow — not decidable here
+            side = 'writer' if wt.get(scope) is None else 'reader'
+            rep.unproven('R6', 'reader/' + scope, '%s:%d' % (rf.file, rf.line),
+                         'env scope %s: written to %s, read from %s — where the %s handles this scope was not found (not persisted / not '
+                         'read back, or a spelling the scope table does not follow)' % (scope, wt.get(scope), rt.get(scope), side))
+            continue
         rep.check(wt.get(scope) == rt.get(scope) and wt.get(scope) is not None, 'R6', 'reader/' + scope, '%s:%d' % (rf.file, rf.line),
                   'scope %s written and read at %s' % (scope, wt.get(scope)),
                   'env scope %s: written to %s, read from %s — the re-read layer data cannot equal what was written' % (scope, wt.get(scope), rt.get(scope)))
